@@ -33,6 +33,8 @@ OpPool == {
   [op |-> "with_functions", fs |-> <<F(S("g")), F(S("in"))>>],
   [op |-> "with_symbol", n |-> S("s"), v |-> I(1)], [op |-> "with_symbol", n |-> S("s"), v |-> I(2)],
   [op |-> "with_symbol", n |-> S("t"), v |-> I(3)],
+  \* re-registering an EQUAL but not identical value still replaces it
+  [op |-> "with_symbol", n |-> S("s"), v |-> VFloat(FZero(1))], [op |-> "with_symbol", n |-> S("s"), v |-> VFloat(FZero(-1))],
   [op |-> "with_symbols", tab |-> <<>>], [op |-> "with_symbols", tab |-> << <<S("s"), I(4)>>, <<S("t"), I(5)>> >>] }
 
 \* candidate function names: every reserved word, identifiers, near-identifiers
